@@ -769,7 +769,10 @@ def compare_prediction(mout, expect, tiny=7):
         # not searched, so the value is exactly what the index code (correction, clamp to lowLimit) left
         if d.get("_t") == "C" and d.get("size", "").isdigit() and 0 < int(d["size"]) < tiny and m[7] != int(d["ntu"]):
             bad.append((desc, "nextToUpdate after an unsearched block", m[7], int(d["ntu"]))); continue
-        if "LW" in d:
+        # the chunk loop of ZSTD_ldm_generateSequences is guarded by `sequences->size < sequences->capacity`; the model has no
+        # sequence store, so frames whose LDM store has capacity 0 (blockSize < ldm minMatchLength: tiny pledged sizes) are
+        # not compared on the LDM window (documented tie restriction, docs/C15.md section 7)
+        if "LW" in d and d.get("lcap", "1") != "0":
             if m[13] != 1 or m[14:20] != ints(d["LW"]) or m[20] != int(d["llde"]):
                 bad.append((desc, "ldm window", m[13:21], ints(d["LW"]) + [int(d["llde"])])); continue
         if m[-2] != int(d["ofs"]):
@@ -998,7 +1001,7 @@ def run(ctx):
         for freq in (0, 1):
             lines = gen_history(rng, K, freq, "frames", rng.choice([40, 300] if ctx.quick else [100, 1500]))
             futs.append(("tie", pool.submit(tie_job, "history-frames", freq, lines, cexe[freq], mexe)))
-    n_chunk_hist, chunk_steps = (4, 25000) if ctx.quick else (12, 60000)   # quick: 2 builds x 4 x 25000 = 2*10^5 chunk steps
+    n_chunk_hist, chunk_steps = (4, 20000) if ctx.quick else (12, 60000)   # quick: 2 builds x 4 x 20000 = 1.6*10^5 chunk steps
     for rep in range(n_chunk_hist):
         for freq in (0, 1):
             lines = gen_history(rng, K, freq, "chunks", chunk_steps)
